@@ -142,6 +142,35 @@ target!(to_tfb, TransportFeedback, PT_RTPFB, fp_tfb);
 target!(to_pfb, PayloadFeedback, PT_PSFB, fp_pfb);
 target!(to_sdes, Sdes, PT_SDES, fp_sdes);
 
+/// SDES-typed input converted to `Sdes` by value (no clone of the chunk vectors): the variant,
+/// the acceptance and the view agree with the typed parser.
+pub fn sdes_by_value<S: Src, const N: usize>(s: &mut S) {
+    let data: [u8; N] = s.bytes();
+    let len = s.range(4, N);
+    let d = &data[..len];
+    s.assume(d[1] == PT_SDES);
+    let typed = Sdes::parse(d);
+    match Packet::parse(d) {
+        Ok(p) => {
+            assert!(matches!(p, Packet::Sdes(_)), "variant is not the one named by the type byte");
+            let conv: Result<Sdes, E> = p.try_into();
+            let a = conv.expect("conversion of the matching variant failed");
+            let b = typed.expect("generic parser accepted what the typed parser rejects");
+            assert!(a.count() == b.count() && a.padding() == b.padding() && a.length() == b.length());
+            assert!(a.chunks().count() == b.chunks().count());
+            vcover!(a.chunks().count() > 0, "SDES with a chunk converted");
+            forget((a, b));
+        }
+        Err(e) => match typed {
+            Err(t) => {
+                assert!(t == e);
+                vcover!(true, "same rejection");
+            }
+            Ok(_) => panic!("generic parser rejected what the typed parser accepts"),
+        },
+    }
+}
+
 /// Unrecognised types yield an unknown packet exposing the input unchanged, with exactly
 /// the unknown-packet parser's outcome.
 pub fn unknown<S: Src, const N: usize>(s: &mut S) {
@@ -168,9 +197,9 @@ common::register! {
     q_to_tfb = to_tfb::<_, 32, false> => 2,
     q_to_pfb = to_pfb::<_, 32, false> => 2,
     q_to_sdes = to_sdes::<_, 32, false> => 2,
-    t_sdes_to_sdes_8 = to_sdes::<_, 8, true> => 2,
-    t_sdes_to_sdes_12 = to_sdes::<_, 12, true> => 2,
     q_sdes_to_bye = to_bye::<_, 12, true> => 2,
+    q_sdes_by_value = sdes_by_value::<_, 8> => 2,
+    t_sdes_by_value = sdes_by_value::<_, 12> => 2,
     q_unknown = unknown::<_, 64> => 2,
     t_to_app = to_app::<_, 128, false> => 2,
     t_to_bye = to_bye::<_, 128, false> => 2,
@@ -179,7 +208,6 @@ common::register! {
     t_to_tfb = to_tfb::<_, 128, false> => 2,
     t_to_pfb = to_pfb::<_, 128, false> => 2,
     t_to_sdes = to_sdes::<_, 128, false> => 2,
-    t_sdes_to_sdes = to_sdes::<_, 16, true> => 2,
     t_sdes_to_app = to_app::<_, 16, true> => 2,
     t_unknown = unknown::<_, 256> => 2,
 }
